@@ -22,6 +22,7 @@ Theorem C14_source_literals :
    vnfirst_stale_p; vnfirst_stops_after_move]
   = [true; true; true; true; true; true; true; true; true; true].
 Proof. exact eq_refl. Qed.
+Print Assumptions C14_source_literals.
 
 (* ---------------- VnBest (flt = the weights are f64 holding integers) ---------------- *)
 
@@ -52,6 +53,7 @@ Print Assumptions C14_vnbest_no_panic.
 Theorem C14_vnbest_mismatch : forall flt ws p, length ws <> length p ->
   vn_best flt ws p = Err (InputLenMismatch (length p) (length ws)).
 Proof. exact vnbest_mismatch. Qed.
+Print Assumptions C14_vnbest_mismatch.
 
 (* ---------------- VnFirst (with the stale `p` of the inner loop) ---------------- *)
 
@@ -75,6 +77,7 @@ Print Assumptions C14_vnfirst_total.
 Theorem C14_vnfirst_mismatch : forall ws p, length ws <> length p ->
   vn_first ws p = Err (InputLenMismatch (length p) (length ws)).
 Proof. exact vnfirst_mismatch. Qed.
+Print Assumptions C14_vnfirst_mismatch.
 
 (* ---------------- the checker decides the property ---------------- *)
 Theorem C14_check_vn_ok : forall ws p p',
